@@ -1538,7 +1538,9 @@ def optimize_blockwise_fusion_array(expr):
                 seen_in_group.add(node._name)
 
                 group.append(node)
-                for dep_name in dependencies.get(node._name, set()):
+                # sorted: the set's iteration order depends on the interpreter's
+                # string hash seed and would leak into the fused layers' names
+                for dep_name in sorted(dependencies.get(node._name, ())):
                     dep = expr_mapping[dep_name]
 
                     stack_names = {s._name for s in stack}
